@@ -24,5 +24,6 @@ for p in $PROPS; do
   RES="$RES $p:$rc"
 done
 cd /repo && git checkout -- . && git status --short | head -3
+cd /verif && git checkout -- evidence 2>/dev/null
 echo "tests=[$T] demo_changed=$DC demo_unchanged=$DU checks=[$RES]" > $OUT/eval_summary.txt
 cat $OUT/eval_summary.txt
